@@ -318,15 +318,17 @@ def r03_5(ctx: Ctx) -> None:
         ctx.cannot("R03.5", CP, test, qual, "sweep test", f"cannot identify the running interval in {txt(test)}")
         return
     slot = next(iter(slots[prev_args[0]]))
-    if not (isinstance(key, ast.Lambda) and len(key.args.args) == 1):
-        ctx.cannot("R03.5", CP, sorts[0], qual, "sort key", f"sort key is not a one-argument lambda: {txt(key)}")
+    from ..flow import key_function
+    resolved_key = key_function(ctx.repo, CP, func, key)
+    if resolved_key is None:
+        ctx.cannot("R03.5", CP, sorts[0], qual, "sort key", f"sort key is not a one-argument lambda or function: {txt(key)}")
         return
-    param = key.args.args[0].arg
+    param, key_body = resolved_key
     want = f"{param}[{slot}].start"
-    ctx.ob("R03.5", CP, sorts[0], qual, "sort key vs sweep interval", txt(key.body) == want,
+    ctx.ob("R03.5", CP, sorts[0], qual, "sort key vs sweep interval", txt(key_body) == want,
            f"the sweep compares each core with the running previous cutoff-extended interval (tuple slot {slot}, "
            f"`{prev_args[0]}`), so the list must be sorted by the start of that slot",
-           form=f"key: {txt(key.body)}; sweep test: {txt(test)}")
+           form=f"key: {txt(key_body)}; sweep test: {txt(test)}")
     # the extended interval is the core extended by the cluster's own cutoff
     for call in calls(func):
         if last_attr(call) == "extend_location":
